@@ -264,6 +264,68 @@ def changed_keys(base, doc):
     return sorted(json.loads(k) for k in set(a) | set(b) if a.get(k, "<absent>") != b.get(k, "<absent>"))
 
 
+def inline_of(fd):
+    """the inline StructureReference a field serializes through with its `<field>._mapper` (directly, or
+    as the element of an Array / Set / Tuple)"""
+    if fd.get("k") == "struct" and fd.get("inline"):
+        return fd
+    if fd.get("k") in ("seqOf", "setOf", "tupleOf") and isinstance(fd.get("item"), dict):
+        return inline_of(fd["item"])
+    return None
+
+
+def inject_inline(rng, dg, cls):
+    """make sure the key-renaming stream regularly meets an inline nested structure (directly and as
+    array element) whose own key and nested keys can both be renamed"""
+    if any(inline_of(fd) for _, fd in cls["fields"]) or rng.random() < 0.35:
+        return
+    free = [n for n in ["g_g", "h_7x", "in_l"] if n not in [x for x, _ in cls["fields"]]]
+    if not free:
+        return
+    inner_fields = [["in_a", {"k": "integer"}], ["b_b", {"k": "string"}], ["c", {"k": "boolean"}]][:rng.randint(2, 3)]
+    names = [n for n, _ in inner_fields]
+    inl = {"k": "struct", "name": dg.fresh("Inl"), "inline": True, "addl": rng.random() < 0.5,
+           "required": sorted(n for n in names if rng.random() < 0.7), "fields": inner_fields}
+    if rng.random() < 0.3:
+        # one more level
+        inl["fields"].append(["d_d", {"k": "struct", "name": dg.fresh("Inl"), "inline": True, "addl": True,
+                                      "required": ["x_y"], "fields": [["x_y", {"k": "integer"}]]}])
+    cls["fields"].append([free[0], inl if rng.random() < 0.6 else {"k": "seqOf", "item": inl}])
+    if rng.random() < 0.6:
+        cls["required"] = sorted(cls["required"] + [free[0]])
+
+
+def _rename(rng, n):
+    return rng.choice(["X_" + n.upper(), n + "Key", n.title().replace("_", ""), "k." + n if rng.random() < 0.05 else n[::-1] + "Z"])
+
+
+def gen_dict_mapper(rng, fields, depth=0):
+    names = [n for n, _ in fields]
+    chosen = [n for n in names if rng.random() < 0.6] or names[:1]
+    m = {n: _rename(rng, n) for n in chosen}
+    for n, fd in fields:
+        inl = inline_of(fd)
+        if inl is not None and rng.random() < 0.85 and depth < 2:
+            m[n + "._mapper"] = gen_dict_mapper(rng, inl["fields"], depth + 1)
+    return m
+
+
+def gen_mapper(rng, cls):
+    style = rng.choice(["dict", "dict", "dict", "camel", "upper"])
+    if style == "dict":
+        return {"style": "dict", "d": gen_dict_mapper(rng, cls["fields"])}
+    return {"style": style}
+
+
+def py_mapper(m):
+    from typedpy import mappers
+    if m["style"] == "camel":
+        return mappers.TO_CAMELCASE
+    if m["style"] == "upper":
+        return mappers.TO_LOWERCASE
+    return json.loads(json.dumps(m["d"]))
+
+
 def gen_cases(rng, tier, n_classes):
     cases = []
     for ci in range(n_classes):
@@ -279,6 +341,9 @@ def gen_cases(rng, tier, n_classes):
         if rng.random() < 0.15:
             cls["required"] = sorted(n for n, _ in cls["fields"])     # never `required: []`
         tweak_decl(rng, cls, vg)
+        mapper_stream = rng.random() < 0.12 and not cls.get("collide")
+        if mapper_stream:
+            inject_inline(rng, dg, cls)
         C.fix_accepts(cls)
         kws = []
         for _ in range(3):
@@ -299,11 +364,8 @@ def gen_cases(rng, tier, n_classes):
                 "re": gen.re_table(cls, kws, bdocs)}
         # oracle-only stream: a key-renaming serialization mapper (not in the Lean model)
         wrapper = len(cls["fields"]) == 1 and set(cls["required"]) == {cls["fields"][0][0]} and cls.get("addl", True) is False
-        if rng.random() < 0.1 and not cls.get("collide") and not wrapper:
-            names = [n for n, _ in cls["fields"]]
-            chosen = [n for n in names if rng.random() < 0.6] or names[:1]
-            case["mapper"] = {n: rng.choice(["X_" + n.upper(), n + "Key", "k." + n if rng.random() < 0.1 else n.title()])
-                              for n in chosen}
+        if mapper_stream and not wrapper:
+            case["mapper"] = gen_mapper(rng, cls)
             case["bdocs"], case["bkeys"] = [], []
         cases.append(case)
     return cases
@@ -390,7 +452,7 @@ def run_impl(case):
             ctx.classes[old].__name__ = new
     res = {"cls_actual": C.fix_accepts(dump.dump_class(cls, ctx, order="definition"))}
     if case.get("mapper"):
-        cls = type(cls.__name__, (cls,), {"_serialization_mapper": dict(case["mapper"])})
+        cls = type(cls.__name__, (cls,), {"_serialization_mapper": py_mapper(case["mapper"])})
     names = [n for n, _ in decl["fields"]]
     collapsed = len(names) == 1 and set(decl["required"]) == set(names) and decl.get("addl", True) is False
     res["collapsed"] = collapsed
@@ -546,8 +608,8 @@ def stmt_exact(d, top=True):
     return all(stmt_exact(v, False) for kk, v in d.items() if kk not in ("values", "defaults"))
 
 
-FEATURE_PRIORITY = ["nested-field-wrapper", "positional-shorter", "map-size", "oneOf", "notF", "allOf",
-                    "sign-with-explicit-bound", "exclusiveMaximum-without-maximum", "unique-by-python-eq"]
+FEATURE_PRIORITY = ["nested-field-wrapper", "positional-shorter", "map-size", "map-key-constraint", "oneOf", "notF", "allOf",
+                    "sign-with-explicit-bound", "unique-by-python-eq"]
 
 
 def inexact_features(d, acc):
@@ -563,14 +625,15 @@ def inexact_features(d, acc):
             pass
         if k in ("mapOf", "mapAny") and (d.get("minItems") is not None or d.get("maxItems") is not None):
             acc.add("map-size")
+        if k == "mapOf" and d["key"].get("k") == "string" and (d["key"].get("pattern") or d["key"].get("minLength")
+                                                                or d["key"].get("maxLength")):
+            acc.add("map-key-constraint")
         if k in ("oneOf", "notF", "allOf"):
             acc.add(k)
         if k in ("integer", "number", "float") and d.get("sign", "any") != "any":
             if (d["sign"] in ("pos", "nonneg") and d.get("min") is not None) or \
                     (d["sign"] in ("neg", "nonpos") and d.get("max") is not None):
                 acc.add("sign-with-explicit-bound")
-        if k in ("integer", "number", "float") and d.get("excl") and d.get("max") is None:
-            acc.add("exclusiveMaximum-without-maximum")
         if k in ("seqOf", "seqPos", "seqAny", "tupleOf", "tuplePos") and d.get("uniq"):
             acc.add("unique-by-python-eq")
         if k == "anyOf" and len(d["fields"]) == 2 and d["fields"][1].get("k") == "noneF":
@@ -585,12 +648,88 @@ def inexact_features(d, acc):
     return acc
 
 
-def admit_key(err, cls=None):
+def _node_at(inst, path):
+    """the instance node a document path leads to (None when the path cannot be followed, e.g. renamed keys)"""
+    node = inst
+    for p in path:
+        if isinstance(node, dict) and "o" in node:
+            nxt = [v for k, v in node["o"][1] if k == p]
+            if not nxt:
+                return None
+            node = nxt[0]
+        elif isinstance(node, dict) and any(t in node for t in ("l", "t", "q")):
+            xs = node.get("l") or node.get("t") or node.get("q")
+            if not p.isdigit() or int(p) >= len(xs):
+                return None
+            node = xs[int(p)]
+        elif isinstance(node, dict) and "m" in node:
+            nxt = [v for k, v in node["m"] if k == p]
+            if not nxt:
+                return None
+            node = nxt[0]
+        else:
+            return None
+    return node
+
+
+def _set_attr_names(inst, acc):
+    if isinstance(inst, dict):
+        if "o" in inst:
+            for k, v in inst["o"][1]:
+                if v is not None:
+                    acc.add(k)
+                _set_attr_names(v, acc)
+        else:
+            for v in inst.values():
+                _set_attr_names(v, acc)
+    elif isinstance(inst, list):
+        for v in inst:
+            _set_attr_names(v, acc)
+    return acc
+
+
+def holds_value(inst, path, name, renamed=False, wrapper=False):
+    """does the instance hold a non-None value for the attribute the schema reports as missing?
+    (then the missing member is not the `None is dropped` phenomenon)"""
+    if inst is None or name is None:
+        return False
+    if wrapper and isinstance(inst, dict) and "o" in inst and len(inst["o"][1]) == 1:
+        inst = inst["o"][1][0][1]          # compact serialization: the document is the only field's value
+    node = _node_at(inst, path)
+    if isinstance(node, dict) and "o" in node:
+        return any(k == name and v is not None for k, v in node["o"][1])
+    # keys renamed by a mapper: the path cannot be followed, look for the attribute anywhere
+    return renamed and name in _set_attr_names(inst, set())
+
+
+def has_class_ref(d):
+    if isinstance(d, list):
+        return any(has_class_ref(x) for x in d)
+    if isinstance(d, dict):
+        if d.get("k") == "struct" and not d.get("inline"):
+            return True
+        return any(has_class_ref(v) for k, v in d.items() if k not in ("values", "defaults"))
+    return False
+
+
+def admit_key(err, cls=None, inst=None, mapper=None):
     """stable name of the phenomenon behind a validation error of a serialized valid instance"""
+    if mapper and mapper.get("style") in ("camel", "upper") and cls is not None and has_class_ref(cls["fields"]):
+        # TO_CAMELCASE / TO_LOWERCASE of the outer class also renames the keys of nested Structure classes when
+        # serializing, while their `$ref` definitions are exported with the nested class's own keys
+        return "enum-mapper-not-applied-to-definitions"
+    if err.get("instance") in ("True", "False") and '"boolean"' in json.dumps(err.get("schema")):
+        return "raw-boolean-string"
     if cls is not None and (err.get("path") or len(cls["fields"]) == 1):
         fd = cls["fields"][0][1] if len(cls["fields"]) == 1 else dict((n, f) for n, f in cls["fields"]).get(err["path"][0])
         if fd is not None and "nested-field-wrapper" in inexact_features(fd, set()):
             return "nested-field-wrapper"
+    if err.get("validator") == "required" and not err.get("branches"):
+        m = re.match(r"'(.*)' is a required property", err["msg"])
+        wrapper = cls is not None and len(cls["fields"]) == 1 and set(cls["required"]) == {cls["fields"][0][0]} \
+            and cls.get("addl", True) is False
+        if m and holds_value(inst, err.get("path") or [], m.group(1), bool(mapper), wrapper):
+            return "required-member-missing-although-set"
     if err.get("branches"):
         keys = {admit_key(b) for b in err["branches"]}
         if len(keys) == 1 and not (keys & {"type", "enum", "required"}):
@@ -620,10 +759,6 @@ def _admit_key(err):
         return "sign-only-float-bound"
     if v == "maximum" and err["value"] == -0.000001:
         return "sign-only-float-bound"
-    if v == "maximum" and sch.get("exclusiveMaximum") and err["value"] in (0, -1, -0.000001) and inst == err["value"]:
-        return "exclusiveMaximum-without-maximum"
-    if v == "additionalItems" and isinstance(sch.get("items"), list) and len(sch["items"]) == 1:
-        return "homogeneous-tuple"
     if v == "required":
         m = re.match(r"'(.*)' is a required property", err["msg"])
         name = m.group(1) if m else None
@@ -750,7 +885,7 @@ def oracle(case, impl, model):
                           "schema_admits_partial covers this (class, instance), yet the real schema rejects the real "
                           f"serialization: {r['error']['msg']}; doc " + json.dumps(r["doc"])[:200]))
         if r.get("valid") is False and model.get("refsFaithful") is not False:
-            fails.append((f"admits:{admit_key(r['error'], case['cls'])}",
+            fails.append((f"admits:{admit_key(r['error'], case['cls'], r.get('x'), case.get('mapper'))}",
                           f"serialization of a valid instance is rejected by the schema: {r['error']['msg']} at {'/'.join(r['error']['path'])}; doc " + json.dumps(r["doc"])[:200]))
         if "valid_crash" in r:
             fails.append(("validator-crash", "Draft4Validator raised on the emitted schema: " + r["valid_crash"]))
